@@ -22,6 +22,9 @@ OPER = {
     "dm": [{"t": "m", "w": 32, "aw": 32, "b": 3, "x": -1, "sc": 1, "d": 0, "hd": 0}],
     "lab": [{"t": "l", "nm": "known", "add": 0}],
     "undef": [{"t": "l", "nm": "nowhere", "add": 0}],
+    "far_ii": [{"t": "txt", "s": "8:27"}], "far_kw": [{"t": "txt", "s": "DWORD 2*8:0x0000001b"}], "far_es": [{"t": "txt", "s": '"":5'}],
+    "far_ec": [{"t": "txt", "s": "'':5"}], "far_bs": [{"t": "txt", "s": '" ":known'}], "far_il": [{"t": "txt", "s": "8:known"}],
+    "far_li": [{"t": "txt", "s": "known:8"}], "far_ri": [{"t": "txt", "s": "AX:8"}], "far_noff": [{"t": "txt", "s": "FAR 8:"}],
     "str": [{"t": "txt", "s": '"ab"'}],
     "chr": [{"t": "txt", "s": "'a'"}],
 }
